@@ -11,6 +11,12 @@ def gen_hunk_diff(rng, nl=b'\n'):
     dels = ins = 0
     if rng.random() < 0.7:
         out += [b'--- a/file', b'+++ b/file']
+    if rng.random() < 0.01:
+        # rarely a long hunk (10-40 KB): counting must not depend on how the text is cut into blocks
+        n = rng.choice([1200, 3000])
+        out.append(b'@@ -1,0 +1,%d @@' % n)
+        out += [b'+inserted line %d%s' % (i, b'.' * rng.randrange(0, 9)) for i in range(n)]
+        ins += n
     for _ in range(rng.choice([1, 1, 2, 3])):
         n = rng.choice([1, 2, 3, 5])
         kinds = [rng.choice(' -+') for _i in range(n)]
